@@ -1,6 +1,7 @@
 package main
 
 import (
+	"time"
 	"sync"
 	"sync/atomic"
 	"errors"
@@ -22,6 +23,8 @@ func init() {
 
 type allocState struct {
 	a allocators.Allocator
+	// a call did not come back (a lock left held): the allocator is not used any more
+	wedged bool
 }
 
 func maskOf(ones, bits int) net.IPMask {
@@ -53,7 +56,30 @@ func fmtFreeRes(err error) string {
 	return "err other"
 }
 
+// exec runs one operation; an operation that does not come back within 20 s is reported as HANG (the allocator took a lock
+// that nobody will release) and every later operation on that allocator is skipped
 func (s *allocState) exec(c *ctx, op string) string {
+	if strings.HasPrefix(op, "new") {
+		s.wedged = false
+	}
+	if s.wedged {
+		c.emit(op, "SKIP after-hang")
+		return "SKIP"
+	}
+	done := make(chan string, 1)
+	go func() { done <- s.exec1(c, op) }()
+	select {
+	case r := <-done:
+		return r
+	case <-time.After(20 * time.Second):
+		s.wedged = true
+		s.a = nil
+		c.emit(op, "HANG")
+		return "HANG"
+	}
+}
+
+func (s *allocState) exec1(c *ctx, op string) string {
 	c.pre(op)
 	f := strings.Fields(op)
 	switch f[0] {
